@@ -86,3 +86,62 @@ def shrink(case):
             for r in t['rounds']:
                 r['obj'] = 0
         yield c
+
+
+def _free_child(path, marker, rounds, wfd):
+    import os
+    from .. import env
+    _, fl = env.aiuti()
+    bad = 0
+    lock = fl.FileLock(path)
+    for _ in range(rounds):
+        with lock:
+            try:
+                fd = os.open(marker, os.O_CREAT | os.O_EXCL | os.O_WRONLY)
+            except FileExistsError:
+                bad += 1
+                continue
+            os.close(fd)
+            os.unlink(marker)
+    os.write(wfd, bytes([min(bad, 255)]))
+    os._exit(0)
+
+
+def free_running_smoke(nproc=16, rounds=600):
+    """Up to 16 real processes contend freely (no stepping).  Smoke test of the unshimmed code path: its
+    schedule is the OS's, so it decides nothing; an overlap seen here is reported as a harness-class error."""
+    import os
+    import time
+    from ..worlds import flworld
+    path = flworld.fresh_path()
+    marker = path + '.marker'
+    t0 = time.time()
+    kids = []
+    for _ in range(nproc):
+        r, w = os.pipe()
+        pid = os.fork()
+        if pid == 0:
+            os.close(r)
+            _free_child(path, marker, rounds, w)
+        os.close(w)
+        kids.append((pid, r))
+    bad = 0
+    for pid, r in kids:
+        b = os.read(r, 1)
+        os.close(r)
+        os.waitpid(pid, 0)
+        bad += b[0] if b else 1
+    for p in (path, marker):
+        try:
+            os.unlink(p)
+        except OSError:
+            pass
+    return {'processes': nproc, 'rounds_each': rounds, 'overlaps_seen': bad, 'wall_s': round(time.time() - t0, 2)}
+
+
+def extra_evidence(agg):
+    smoke = free_running_smoke()
+    out = {'free_running_smoke': dict(smoke, note='uncontrolled OS schedule: a smoke test of the unshimmed path, not a deciding step')}
+    if smoke['overlaps_seen']:
+        out['__errors__'] = [f'free-running smoke saw {smoke["overlaps_seen"]} overlapping critical sections (not replayable)']
+    return out
